@@ -10,7 +10,7 @@ import Nstd.Str.LemmasAlias
   creates).  Specification: `Nstd.Str.Spec` (one byte list per variable).  `run s ops = some s'`
   means: the history `ops` executed from `s` without a fault of the checked memory model and
   ended in `s'`.  `Good s` is the invariant of the reachable states (heap invariant + empty temporaries):
-  `reach_good` shows every reachable state is `Good`, `good_closed` that `Good` is kept by every call of the
+  `reach_good` shows every reachable state is `Good` (reachable = by any history of the 39 calls of `Op`), `good_closed` that `Good` is kept by every call of the
   model (mutating calls, extended operations, read-only calls with their C string views, own-pointer calls);
   the theorems assume `Good s` only, so they apply after any mixed history.  All theorems quantify over every number of variables, every content of the
   foreign regions and every history.
@@ -542,15 +542,17 @@ def exampleRegs : Nat → List Nat
 def exampleProg : List Op :=
   [.attach 0 0 0 2, .assign 1 0, .attach 2 1 0 4, .appendS 2 2, .prependS 1 1, .assign 3 1, .cview 2,
    .replaceL 1 [98] [120, 121], .tokenC 0 1 121 0, .upper 3, .trim 2 [97, 32], .resize 0 1,
-   .substr 0 0 (-1) (-1)]
+   .substr 0 0 (-1) (-1), .plus 0 3 3, .plusLit 0 0 0 2, .plusEqS 0 0, .plusEqC 0 33, .fromD 2 (-7), .fromBool 2 true,
+   .fromCStr 2 [97, 0, 98], .fromPrintf 2 [.lit [120], .u 5, .s [97, 98]], .plus 2 2 0]
 
 example : ∀ op ∈ exampleProg, ValidArgs (init 7 exampleRegs) op := by
   simp [exampleProg, ValidArgs, validVar, userVars, init, exampleRegs]
 
 example : ∃ σ, Spec.run exampleRegs (fun _ => []) exampleProg = some σ ∧
     σ 1 = [some 97, some 120, some 121, some 97, some 120, some 121] ∧
-    σ 2 = [some 98, some 47, some 32, some 97, some 98, some 47] ∧ σ 3 = [some 65, some 66, some 65, some 66] :=
-  ⟨_, rfl, by decide, by decide, by decide⟩
+    σ 2 = [some 120, some 53, some 97, some 98] ++ σ 0 ∧ σ 3 = [some 65, some 66, some 65, some 66] ∧
+    σ 0 = ([65, 66, 65, 66, 65, 66, 65, 66, 97, 98, 65, 66, 65, 66, 65, 66, 65, 66, 97, 98, 33] : List Nat).map some :=
+  ⟨_, rfl, by decide, by decide, by decide, by decide⟩
 
 /-- hence (by `run_total`) the model executes this history without fault and ends in these values,
     and the final state is a `Reach` state to which all theorems above apply -/
@@ -571,5 +573,206 @@ example : Spec.tokenIter [47] [97, 47, 47, 98, 47] 6 0 = [[97], [], [98]] ∧
 
 example : strstrL [97, 98, 97, 98] [98, 97] = some 1 ∧ findLastLoop [97, 98, 97, 98] [97, 98] 5 0 none = some 2 ∧
     findLastLoop [97, 98] [] 3 0 none = some 2 ∧ strcmpL [97, 98] [97, 128] < 0 := by decide
+
+/-! ### extension round: further read-only calls, capacity, static helpers, own-pointer attach / printf -/
+
+/-- **The further read-only calls**: `operator< <= > >=` decide the lexicographic order of the values (unsigned chars),
+    `operator!=` their difference, `equalsIgnoreCase(other, n)` the equality of the first `n` ASCII-lowered chars,
+    `isEmpty()` emptiness, `split(HashSet<String>&, …)` delivers the pieces of `split` without later duplicates; the
+    calls that take C string views keep the invariant and every value. -/
+theorem queries_more_spec {s : St} (g : Good s) {v w : Nat}
+    (hv : validVar s v = true) (hw : validVar s w = true) {a b : List Nat}
+    (ha : allSome (absVar s v) = some a) (hb : allSome (absVar s w) = some b)
+    (hza : ∀ x ∈ a, x ≠ 0) (hzb : ∀ x ∈ b, x ≠ 0) :
+    (∀ k s' res, relS s v w k = some (s', res) →
+      (res = true ↔ match k with | .lt => a < b | .le => a < b ∨ a = b | .gt => ¬ (a < b ∨ a = b) | .ge => ¬ a < b) ∧
+      Good s' ∧ ∀ u, absVar s' u = absVar s u) ∧
+    (∀ res, notEqualS s v w = some res → (res = true ↔ a ≠ b)) ∧
+    (∀ n s' res, equalsICN s v w n = some (s', res) →
+      (res = true ↔ (a.map toLower).take n = (b.map toLower).take n) ∧ Good s' ∧ ∀ u, absVar s' u = absVar s u) ∧
+    (∀ res, isEmpty s v = some res → (res = true ↔ a = [])) ∧
+    (∀ seps skip s' toks, splitSet s v seps skip = some (s', toks) →
+      toks = dedupToks (splitOut skip (splitRef seps a)) ∧ Good s' ∧ ∀ u, absVar s' u = absVar s u) := by
+  have h := g.inv
+  have V := valid_facts hv
+  have W := valid_facts hw
+  obtain ⟨q1, q2, q3, q4, q5, q6, q7, q8, q9, q10, q11, q12, q13, q14, q15⟩ := queries_silent h V.1 W.1
+  refine ⟨?_, ?_, ?_, ?_, ?_⟩
+  · intro k s' res e
+    simp only [relS, Option.bind_eq_bind, Option.bind_eq_some_iff, Option.pure_def, Option.some.injEq, Prod.mk.injEq] at e
+    obtain ⟨⟨s1, r⟩, h1, rfl, rfl⟩ := e
+    obtain ⟨rfl, ab⟩ := compareS_eq h V.1 W.1 h1 ha hb hza hzb
+    have z := strcmp_eq_zero hza hzb
+    have n := strcmp_neg hza hzb
+    refine ⟨?_, good_of_silent g (q8 _ _ h1), ab⟩
+    cases k <;> simp only [Rel.holds, decide_eq_true_eq]
+    · exact n
+    · rw [← z, ← n]; omega
+    · rw [← z, ← n]; omega
+    · rw [← n]; omega
+  · intro res e
+    obtain ⟨dv, hdv⟩ := desc_some h v
+    obtain ⟨dw, hdw⟩ := desc_some h w
+    have lv : dv.len = a.length := by rw [desc_len h hdv, allSome_eq ha, List.length_map]
+    have lw : dw.len = b.length := by rw [desc_len h hdw, allSome_eq hb, List.length_map]
+    simp only [notEqualS, hdv, hdw, Option.bind_eq_bind, Option.bind_some, contentVal_eq h, ha, hb] at e
+    by_cases c : dv.len ≠ dw.len
+    · simp only [c, ne_eq, not_false_eq_true, if_true, Option.pure_def, Option.some.injEq] at e
+      subst e
+      simp only [true_iff]
+      intro x; subst x; omega
+    · simp only [c, if_false, Option.pure_def, Option.some.injEq] at e
+      subst e
+      simp
+  · intro n s' res e
+    simp only [equalsICN, Option.bind_eq_bind, Option.bind_eq_some_iff, Option.pure_def, Option.some.injEq, Prod.mk.injEq] at e
+    obtain ⟨⟨s1, r⟩, h1, rfl, rfl⟩ := e
+    obtain ⟨rfl, ab⟩ := compareICN_eq h V.1 W.1 h1 ha hb hza hzb
+    have h1' : ∀ x ∈ (a.map toLower).take n, x ≠ 0 := by
+      intro x hx; obtain ⟨y, hy, rfl⟩ := List.mem_map.mp (List.mem_of_mem_take hx); exact toLower_ne_zero (hza y hy)
+    have h2' : ∀ x ∈ (b.map toLower).take n, x ≠ 0 := by
+      intro x hx; obtain ⟨y, hy, rfl⟩ := List.mem_map.mp (List.mem_of_mem_take hx); exact toLower_ne_zero (hzb y hy)
+    refine ⟨?_, good_of_silent g (q11 _ _ _ h1), ab⟩
+    rw [← strcmp_eq_zero h1' h2']
+    simp
+  · intro res e
+    obtain ⟨dv, hdv⟩ := desc_some h v
+    have lv : dv.len = a.length := by rw [desc_len h hdv, allSome_eq ha, List.length_map]
+    simp only [isEmpty, hdv, Option.bind_eq_bind, Option.bind_some, Option.pure_def, Option.some.injEq] at e
+    subst e
+    rw [lv]
+    cases a <;> simp
+  · intro seps skip s' toks e
+    simp only [splitSet, Option.bind_eq_bind, Option.bind_eq_some_iff, Option.pure_def, Option.some.injEq, Prod.mk.injEq] at e
+    obtain ⟨⟨s1, t⟩, h1, rfl, rfl⟩ := e
+    obtain ⟨rfl, ab⟩ := split_eq h V.1 h1 ha hza
+    exact ⟨rfl, good_of_silent g (q15 _ _ _ _ h1), ab⟩
+
+/-- **`capacity()` / `reserve`**: `capacity()` is 0 or at least `length()`; after `reserve(n)` (and likewise after every
+    call that detaches) the String owns its block exclusively and `capacity() ≥ max n length()`. -/
+theorem capacity_spec {s : St} (g : Good s) {v : Nat} :
+    (∀ c, capacity s v = some c → c = 0 ∨ (absVar s v).length ≤ c) ∧
+    (∀ n s', validVar s v = true → step s (.reserve v n) = some s' →
+      ∃ c, capacity s' v = some c ∧ n ≤ c ∧ (absVar s' v).length ≤ c ∧ absVar s' v = absVar s v) := by
+  have h := g.inv
+  constructor
+  · intro c e
+    obtain ⟨d, hd⟩ := desc_some h v
+    simp only [capacity, hd, Option.bind_eq_bind, Option.bind_some, Option.pure_def, Option.some.injEq] at e
+    by_cases r1 : d.ref = 1
+    · simp only [r1, if_true] at e
+      subst e
+      right
+      cases hloc : s.vars v with
+      | empty => rw [desc_empty hloc] at hd; injection hd with hd; subst hd; simp at r1
+      | foreign r off len => rw [desc_foreign hloc] at hd; injection hd with hd; subst hd; simp at r1
+      | blk b =>
+        obtain ⟨blk, hb⟩ := h.live v b hloc
+        rw [desc_blk hloc hb] at hd; injection hd with hd; subst hd
+        have W := h.wf b blk hb
+        simp only [absVar, hloc, hb, List.length_take]
+        omega
+    · simp only [r1, if_false] at e
+      exact Or.inl e.symm
+  · intro n s' hv e
+    have V := valid_facts hv
+    simp only [step, hv, if_true] at e
+    obtain ⟨d, hd⟩ := desc_some h v
+    have hlen := desc_len h hd
+    have E := eff_reserve h V.1 e
+    simp only [reserve, hd, Option.bind_eq_bind, Option.bind_some] at e
+    obtain ⟨_, bk, blk, hloc, hb, r1, hl, hC⟩ := eff_detach h V.1 e
+    have W := E.inv.wf bk blk hb
+    refine ⟨blk.cap, by simp [capacity, desc_blk hloc hb, r1], ?_, ?_, E.self⟩
+    · split at hC <;> omega
+    · simp only [absVar, hloc, hb, List.length_take]; omega
+
+/-- **The static helpers on C strings** (`a`, `b` = the chars in front of the NUL, NUL-free): `compare` is zero
+    exactly on equal strings and negative exactly on lexicographically smaller ones (unsigned chars), `length` is the
+    number of chars, `find(in, str)` / `findOneOf` / `findLast` / `findLastOf` return the first / last match,
+    `find(in, c)` / `findLast(in, c)` the first / last index of a non-NUL char. -/
+theorem static_helpers_spec {a b : List Nat} (hza : ∀ x ∈ a, x ≠ 0) (hzb : ∀ x ∈ b, x ≠ 0) :
+    (sCompare a b = 0 ↔ a = b) ∧ (sCompare a b < 0 ↔ a < b) ∧
+    (sCompareIC a b = 0 ↔ a.map toLower = b.map toLower) ∧ cstrLen a = a.length ∧
+    FirstMatch a b (sFind a b) ∧ FirstOf a b (sFindOneOf a b) ∧ LastMatch a b (sFindLast a b) ∧
+    LastOf a b (sFindLastOf a b) ∧
+    (∀ c, c ≠ 0 → sFindC a c = a.findIdx? (· == c)) ∧ sFindC a 0 = none ∧ sFindLastC a 0 = none := by
+  have h1 : ∀ x ∈ a.map toLower, x ≠ 0 := by
+    intro x hx; obtain ⟨y, hy, rfl⟩ := List.mem_map.mp hx; exact toLower_ne_zero (hza y hy)
+  have h2 : ∀ x ∈ b.map toLower, x ≠ 0 := by
+    intro x hx; obtain ⟨y, hy, rfl⟩ := List.mem_map.mp hx; exact toLower_ne_zero (hzb y hy)
+  refine ⟨strcmp_eq_zero hza hzb, strcmp_neg hza hzb, strcmp_eq_zero h1 h2, ?_, strstr_first a b, strpbrk_first a b,
+    findLastLoop_spec a b _ 0 none (Nat.zero_le _) (by omega) ?_, findLastOfLoop_spec a b _ 0 none (Nat.zero_le _) (by omega) ?_,
+    fun c hc => by simp [sFindC, hc], by simp [sFindC], by simp [sFindLastC]⟩
+  · unfold cstrLen
+    congr 1
+    exact takeWhile_all _ a (fun x hx => by simpa using hza x hx)
+  · simp [LastBelow]
+  · simp [LastOfBelow]
+
+/-- `s.attach((const char*)s + off, n)`: when the model executes it (the pointer points into memory the String never
+    owned — a literal or attached memory with a NUL behind the range — or the string is empty) the String becomes a
+    descriptor of exactly that sub-range and nothing else changes; a pointer into the String's own heap block is a
+    fault (`alias_attach_printf_cases`). -/
+theorem attach_alias_spec {s s' : St} (g : Good s) {v off n : Nat} (hv : validVar s v = true)
+    (e : attachAlias s v off n = some s') : Eff s s' v (((absVar s v).drop off).take n) ∧ Good s' := by
+  have V := valid_facts hv
+  have h := g.inv
+  suffices E : Eff s s' v (((absVar s v).drop off).take n) from ⟨E, good_of_eff g E hv⟩
+  simp only [attachAlias, Option.bind_eq_bind, Option.bind_eq_some_iff] at e
+  obtain ⟨s1, h1, d0, hd0, e⟩ := e
+  obtain ⟨E1, _⟩ := eff_cview h V.1 h1
+  have hv1 : v < s1.n := by rw [E1.n]; exact V.1
+  by_cases c : off + n > d0.len
+  · simp [c] at e
+  · simp only [c, if_false] at e
+    cases hloc : s1.vars v with
+    | empty =>
+      rw [desc_empty hloc] at hd0; injection hd0 with hd0; subst hd0
+      simp only [Option.some.injEq] at e
+      subst e
+      have E2 := eff_setEmpty E1.inv hv1
+      have z : absVar s1 v = [] := by simp [absVar, hloc]
+      have : ((absVar s v).drop off).take n = [] := by rw [← E1.self, z]; simp
+      rw [this]
+      exact E1.trans E2
+    | foreign r o l =>
+      rw [desc_foreign hloc] at hd0; injection hd0 with hd0; subst hd0
+      simp only [Option.some.injEq] at e
+      subst e
+      have fr := E1.inv.frg v r o l hloc
+      simp only at c
+      have E2 := eff_attach E1.inv hv1 (r := r) (off := o + off) (len := n) (by omega)
+      have z : absVar s1 v = (((s1.regs r).map some).drop o).take l := by simp [absVar, hloc]
+      have : ((absVar s v).drop off).take n = (((s1.regs r).map some).drop (o + off)).take n := by
+        rw [← E1.self, z, List.drop_take, List.take_take, List.drop_drop]
+        congr 1
+        omega
+      rw [this]
+      exact E1.trans E2
+    | blk b =>
+      obtain ⟨blk, hb⟩ := E1.inv.live v b hloc
+      rw [desc_blk hloc hb] at hd0; injection hd0 with hd0; subst hd0
+      simp at e
+
+/-- The own-pointer forms of `attach` and `printf`, case by case (all over `String s("abcd", 4)` / the literal "ab"):
+    `s.attach((const char*)s + 1, 2)` on an owned String is a fault (the descriptor would point into the block the
+    call deletes); on a literal it is the sub-range.  `s.printf("<%s>", (const char*)s)` is a fault when `s` owns its
+    block exclusively (the first `detach(0, 200)` deletes the block the argument points into — or, with capacity ≥ 200,
+    keeps it and `vsnprintf` writes over its own argument); it gives `<ab>` when the pointer is into a literal and
+    `<abcd>` when another String keeps the old block alive. -/
+theorem alias_attach_printf_cases :
+    ((run (init 7 (fun _ => [])) [.ctorPtr 0 [97, 98, 99, 100]]).bind (fun s => attachAlias s 0 1 2)).isSome = false ∧
+    ((run (init 7 exampleRegs) [.attach 0 0 0 2]).bind (fun s => attachAlias s 0 1 1)).map (fun s => absVar s 0) = some [some 98] ∧
+    ((run (init 7 (fun _ => [])) [.ctorPtr 0 [97, 98, 99, 100]]).bind (fun s => printfAlias s 0 [60] [62])).isSome = false ∧
+    ((run (init 7 (fun _ => [])) [.ctorPtr 0 [97, 98, 99, 100], .reserve 0 300]).bind
+      (fun s => printfAlias s 0 [60] [62])).isSome = false ∧
+    ((run (init 7 exampleRegs) [.attach 0 0 0 2]).bind (fun s => printfAlias s 0 [60] [62])).map (fun r => absVar r.1 0)
+      = some [some 60, some 97, some 98, some 62] ∧
+    ((run (init 7 (fun _ => [])) [.ctorPtr 0 [97, 98, 99, 100], .assign 1 0]).bind
+      (fun s => printfAlias s 0 [60] [62])).map (fun r => (absVar r.1 0, absVar r.1 1))
+      = some ([some 60, some 97, some 98, some 99, some 100, some 62], [some 97, some 98, some 99, some 100]) := by
+  decide +kernel
+
 
 end Nstd.Str
